@@ -181,6 +181,23 @@ Theorem C04_legacy_gather_refuted :
 Proof. exact legacy_not_local. Qed.
 Print Assumptions C04_legacy_gather_refuted.
 
+(* for EVERY arithmetic instance: the value the weight function takes at the placeholder distance of a missing slot
+   (the code calls it on the whole distance array, missing = 1) never reaches the result *)
+Theorem C04_placeholder_weight_irrelevant : forall (T : Type) (OP : ops T) (wf wf' : T -> T) n col ix ds f,
+  (forall i d, In (i, d) (combine ix ds) -> i <> n -> wf d = wf' d) ->
+  weighted_col OP wf n col ix ds f = weighted_col OP wf' n col ix ds f.
+Proof. exact (@weighted_col_placeholder). Qed.
+Print Assumptions C04_placeholder_weight_irrelevant.
+(* the weighting as it was before the second fix (0/1 factor times wf(1)) is refuted on binary64 by w(d) = 1/|d-1|:
+   one neighbour in range (value 3, counted), one missing slot -> norm is NaN and the location is filled with -7;
+   with weight 0 for the missing slot the result is 3 *)
+Theorem C04_legacy_weight_refuted :
+  same_bits (c_res (weighted_col_legacy_w F64 sing_wf 2 sing_col sing_ix sing_ds (-7)%float)) (-7)%float = true /\
+  c_cnt (weighted_col_legacy_w F64 sing_wf 2 sing_col sing_ix sing_ds (-7)%float) = 1%Z /\
+  same_bits (c_res (weighted_col F64 sing_wf 2 sing_col sing_ix sing_ds (-7)%float)) 3%float = true.
+Proof. exact legacy_weight_not_placeholder_free. Qed.
+Print Assumptions C04_legacy_weight_refuted.
+
 (* call level: which column model a (location, channel) uses, and what is observed *)
 Theorem C04_call_structure : forall (T : Type) (OP : ops T) (c : cfg T) t j,
   (forall i1 i2 rest, valid_out t = true -> idxs t = i1 :: i2 :: rest ->
